@@ -475,6 +475,14 @@ def handle (args : List String) : String :=
     match parseStr t with
     | some text => two (outS renderVal (jsonDecodeText (floatTextOf tbl) text)) "nopanic"
     | none => "bad-op"
+  | ["json_lit", t, tbl] =>
+    -- a JSON-shaped text read as a Noulith literal: the same value json_decode gives (in a dict
+    -- literal, as in a JSON object, a later repeated key replaces the earlier one)
+    match parseStr t with
+    | some text =>
+      let r := outS renderVal (jsonDecodeText (floatTextOf tbl) text)
+      two r r
+    | none => "bad-op"
   | ["json_rt_text", v, tbl] =>
     match parseVal 100000 v.toList with
     | some (x, []) =>
